@@ -26,14 +26,23 @@ CON = "yastn.tensor._contractions"
 AUX = "yastn.tensor._auxiliary"
 
 
-def _first_stmt_guard(chk, f, rule, cond_texts, ret_text):
+def _is_not_fermionic(test, subjects):
+    """`not X` with X one of `subjects` (texts or suffixes), possibly as a disjunct of an `or`"""
+    def hit(t):
+        return isinstance(t, ast.UnaryOp) and isinstance(t.op, ast.Not) and any(A.text(t.operand) == s_ or A.text(t.operand).endswith(s_) for s_ in subjects)
+    if hit(test):
+        return True
+    return isinstance(test, ast.BoolOp) and isinstance(test.op, ast.Or) and any(hit(v) for v in test.values)
+
+
+def _first_stmt_guard(chk, f, rule, subjects, ret_ok, what):
     body = A.strip_docstring(f.node.body)
     first = body[0]
-    ok = isinstance(first, ast.If) and A.text(first.test) in cond_texts and len(first.body) == 1 and \
-        isinstance(first.body[0], ast.Return) and A.text(first.body[0].value) == ret_text and not first.orelse
+    ok = isinstance(first, ast.If) and _is_not_fermionic(first.test, subjects) and len(first.body) == 1 and \
+        isinstance(first.body[0], ast.Return) and first.body[0].value is not None and ret_ok(first.body[0].value) and not first.orelse
     chk.verdict(rule, (f, first), first.test if isinstance(first, ast.If) else first, True if ok else False,
                 f"{f.short}: bosonic statistics must be the identity — the function no longer starts with "
-                f"`if {sorted(cond_texts)[0]}: return {ret_text}`")
+                f"`if not <fermionic flag>: return {what}`")
     return first if ok else None
 
 
@@ -82,10 +91,13 @@ def mod2_before_use(fn, sumcall, parent):
             # tp += sum(...)  -> later  tp = tp % 2
             var = p.target.id
             for n in ast.walk(fn):
-                if isinstance(n, ast.Assign) and A.text(n.targets[0]) == var and isinstance(n.value, ast.BinOp) \
+                if isinstance(n, ast.Assign) and isinstance(n.value, ast.BinOp) \
                         and isinstance(n.value.op, ast.Mod) and A.neg_const(n.value.right) == 2 and A.text(n.value.left) == var \
                         and n.lineno > p.lineno:
-                    return True
+                    # ... and the un-reduced accumulator is not used afterwards
+                    later = [x for x in ast.walk(fn) if isinstance(x, ast.Name) and x.id == var and isinstance(x.ctx, ast.Load) and x.lineno > n.lineno]
+                    if A.text(n.targets[0]) == var or not later:
+                        return True
             return False
         if isinstance(p, ast.Assign) and isinstance(p.targets[0], ast.Name):
             var = p.targets[0].id
@@ -203,6 +215,63 @@ def run_W5(chk):
                 "(swap_gate(ts[d_ten], axes=d_legs, charge=ts[jumped].n) stored back into ts[d_ten])")
 
 
+def _negates_listed_slices_of_a_copy(nb):
+    """backend negate_blocks(data, slices): copy `data`, multiply exactly the listed slices by -1, return the copy"""
+    fn = nb.node
+    data, slices = nb.params[0], nb.params[1]
+    body = A.strip_docstring(fn.body)
+    cp = [n for n in body if isinstance(n, ast.Assign) and isinstance(n.targets[0], ast.Name) and isinstance(n.value, ast.Call)
+          and ((isinstance(n.value.func, ast.Attribute) and n.value.func.attr in ("copy", "clone") and A.text(n.value.func.value) == data)
+               or (A.callee_attr(n.value) in ("copy", "array", "clone") and n.value.args and A.text(n.value.args[0]) == data))]
+    if not cp:
+        return False
+    new = cp[0].targets[0].id
+    loops = [n for n in body if isinstance(n, ast.For) and A.text(n.iter) == slices]
+    if len(loops) != 1:
+        return False
+    lv = A.assigned_names(loops[0].target)
+    neg = False
+    for st in loops[0].body:
+        tgt = val = None
+        if isinstance(st, ast.AugAssign) and isinstance(st.op, ast.Mult) and A.neg_const(st.value) == -1:
+            tgt = st.target
+            neg = True
+        elif isinstance(st, ast.Assign) and isinstance(st.value, ast.UnaryOp) and isinstance(st.value.op, ast.USub) \
+                and A.text(st.value.operand) == A.text(st.targets[0]):
+            tgt = st.targets[0]
+            neg = True
+        else:
+            return False
+        if not (isinstance(tgt, ast.Subscript) and A.text(tgt.value) == new and any(isinstance(x, ast.Name) and x.id in lv for x in ast.walk(tgt.slice))):
+            return False
+    others = [n for n in body if n is not cp[0] and n is not loops[0] and not isinstance(n, ast.Return)]
+    rets = [n for n in body if isinstance(n, ast.Return)]
+    return neg and not others and len(rets) == 1 and A.text(rets[0].value) == new
+
+
+def _selects_odd_blocks(s2n, first):
+    """first statement collects the data slice of exactly those blocks whose parity entry is truthy"""
+    par, slices = s2n.params[0], s2n.params[1]
+    if not isinstance(first, ast.Assign):
+        return False
+    v = first.value
+    if isinstance(v, ast.Call) and A.call_name(v) in ("tuple", "list") and v.args:
+        v = v.args[0]
+    if not isinstance(v, (ast.GeneratorExp, ast.ListComp)) or len(v.generators) != 1:
+        return False
+    g = v.generators[0]
+    if not (isinstance(g.iter, ast.Call) and A.call_name(g.iter) == "zip" and len(g.iter.args) == 2 and isinstance(g.target, ast.Tuple)
+            and len(g.target.elts) == 2):
+        return False
+    bind = {A.text(a_): A.text(t_) for a_, t_ in zip(g.iter.args, g.target.elts)}
+    if set(bind) != {par, slices}:
+        return False
+    if len(g.ifs) != 1 or A.text(g.ifs[0]) != bind[par]:
+        return False
+    return any(isinstance(x, ast.Name) and x.id == bind[slices] for x in ast.walk(v.elt)) and \
+        not any(isinstance(x, ast.Name) and x.id == bind[par] for x in ast.walk(v.elt))
+
+
 def run(chk):
     prog = chk.prog
     chk.explanation = (
@@ -226,10 +295,10 @@ def run(chk):
     sc = prog.func(AUX, "swap_charges")
     sco = prog.func(AUX, "sign_canonical_order")
     # ---- W1
-    _first_stmt_guard(chk, sg, "W1", {"not a.config.fermionic"}, "a")
-    _first_stmt_guard(chk, sc, "W1", {"not fss"}, "1")
-    _first_stmt_guard(chk, sco, "W1", {"not operators or not operators[0].config.fermionic",
-                                       "not operators[0].config.fermionic"}, "1")
+    one = lambda v: A.neg_const(v) == 1
+    _first_stmt_guard(chk, sg, "W1", (".config.fermionic",), lambda v: isinstance(v, ast.Name) and v.id == sg.params[0], "the operand")
+    _first_stmt_guard(chk, sc, "W1", (sc.params[2],), one, "1")
+    _first_stmt_guard(chk, sco, "W1", (".config.fermionic",), one, "1")
     # ---- W2
     for f in (msg, msgc, sc):
         parent = A.enclosing_map(f.node)
@@ -255,79 +324,155 @@ def run(chk):
     # what the block selector receives is the reduced parity
     for f in (msg, msgc):
         rets = A.returns_of(f.node)
-        ok = len(rets) == 1 and isinstance(rets[0].value, ast.Call) and A.call_name(rets[0].value) == "_slices_to_negate" \
-            and A.text(rets[0].value.args[0]) == "tp" and A.text(rets[0].value.args[1]) == "slices"
-        chk.verdict("W2", (f, rets[0]), rets[0], True if ok else False, f"{f.short} no longer returns _slices_to_negate(tp, slices)")
+        ok = False
+        if len(rets) == 1 and isinstance(rets[0].value, ast.Call) and A.call_name(rets[0].value) == "_slices_to_negate" and len(rets[0].value.args) == 2:
+            par, sl = rets[0].value.args
+            sums = find_parity_sums(f.node)
+            parent_ = A.enclosing_map(f.node)
+            # the parity handed over is (derived from) the variable the parity sums flow into, reduced mod 2
+            acc = set()
+            for c_, _ in sums:
+                st_ = A.stmt_of(c_, parent_)
+                for t in ([st_.target] if isinstance(st_, ast.AugAssign) else getattr(st_, "targets", [])):
+                    acc.update(A.assigned_names(t))
+            changed = True
+            while changed:
+                changed = False
+                for n_ in ast.walk(f.node):
+                    if isinstance(n_, ast.Assign) and any(isinstance(x, ast.Name) and x.id in acc for x in ast.walk(n_.value)):
+                        for nm in A.assigned_names(n_.targets[0]):
+                            if nm not in acc:
+                                acc.add(nm)
+                                changed = True
+            reduced = {nm for n_ in ast.walk(f.node) if isinstance(n_, ast.Assign) and isinstance(n_.value, ast.BinOp) and isinstance(n_.value.op, ast.Mod)
+                       and A.neg_const(n_.value.right) == 2 for nm in A.assigned_names(n_.targets[0])}
+            flows = isinstance(par, ast.Name) and par.id in acc and par.id in reduced
+            ok = flows and isinstance(sl, ast.Name) and sl.id in f.params
+        chk.verdict("W2", (f, rets[0]), rets[0], True if ok else False,
+                    f"{f.short} no longer returns _slices_to_negate(<reduced parity of each block>, <the slices it was given>)")
     # sign = 1 - 2 * parity
     for r in A.returns_of(sc.node):
         if isinstance(r.value, ast.Constant):
             continue
-        t = A.text(r.value)
-        chk.verdict("W2", (sc, r), r.value, True if t.startswith("1 - 2 * (") and t.endswith("% 2)") else False,
-                    "swap_charges: the sign is not 1 - 2*(parity % 2)")
+        v = r.value
+        ok = isinstance(v, ast.BinOp) and isinstance(v.op, ast.Sub) and A.neg_const(v.left) == 1 and isinstance(v.right, ast.BinOp) \
+            and isinstance(v.right.op, ast.Mult)
+        if ok:
+            two, par = (v.right.left, v.right.right) if A.neg_const(v.right.left) == 2 else (v.right.right, v.right.left)
+            ok = A.neg_const(two) == 2 and isinstance(par, ast.BinOp) and isinstance(par.op, ast.Mod) and A.neg_const(par.right) == 2
+        chk.verdict("W2", (sc, r), r.value, True if ok else False, "swap_charges: the sign is not 1 - 2*(parity % 2)")
     # flag vector at the call sites of the two meta functions
-    fss_def = [n for n in ast.walk(sg.node) if isinstance(n, ast.Assign) and A.text(n.targets[0]) == "fss"]
-    chk.require(fss_def, "swap_gate: definition of fss not found")
+    # the flag vector handed to the sign computations: all-True for fermionic=True, else the configured tuple
+    mcalls = [c for c in A.calls(sg.node) if A.call_name(c) in ("_meta_swap_gate", "_meta_swap_gate_charge")]
+    chk.require(len(mcalls) == 2, "swap_gate: calls of _meta_swap_gate / _meta_swap_gate_charge not found")
+    flag_names = {A.text(c.args[-1]) for c in mcalls}
+    chk.verdict("W2", (sg, mcalls[0]), "both sign computations receive one flag vector as last argument", True if len(flag_names) == 1 and
+                all(isinstance(c.args[-1], ast.Name) for c in mcalls) else False, "swap_gate does not pass one and the same flag vector to both sign computations")
+    fname = sorted(flag_names)[0]
+    fss_def = [n for n in ast.walk(sg.node) if isinstance(n, ast.Assign) and A.text(n.targets[0]) == fname]
+    chk.require(fss_def, f"swap_gate: definition of the flag vector `{fname}` not found")
     v = fss_def[0].value
-    ok = isinstance(v, ast.IfExp) and A.text(v.test) == "a.config.fermionic is True" and A.text(v.body) in ("(True,) * nsym", "nsym * (True,)") \
-        and A.text(v.orelse) == "a.config.fermionic"
+    ok = False
+    if isinstance(v, ast.IfExp):
+        t = v.test
+        is_true = isinstance(t, ast.Compare) and len(t.ops) == 1 and isinstance(t.ops[0], (ast.Is, ast.Eq)) and A.text(t.left).endswith(".config.fermionic") \
+            and isinstance(t.comparators[0], ast.Constant) and t.comparators[0].value is True
+        body, other = v.body, v.orelse
+
+        def all_true(b_):
+            if isinstance(b_, ast.BinOp) and isinstance(b_.op, ast.Mult):
+                for tup, cnt in ((b_.left, b_.right), (b_.right, b_.left)):
+                    if isinstance(tup, ast.Tuple) and len(tup.elts) == 1 and isinstance(tup.elts[0], ast.Constant) and tup.elts[0].value is True \
+                            and A.text(cnt) in ("nsym", "a.config.sym.NSYM", f"{sg.params[0]}.config.sym.NSYM"):
+                        return True
+            return False
+        ok = is_true and all_true(body) and A.text(other).endswith(".config.fermionic")
     chk.verdict("W2", (sg, fss_def[0]), fss_def[0], True if ok else False,
-                "swap_gate: the flag vector must be all-True for fermionic=True and the configured tuple otherwise")
-    for c in [c for c in A.calls(sg.node) if A.call_name(c) in ("_meta_swap_gate", "_meta_swap_gate_charge")]:
-        chk.verdict("W2", (sg, c), c, True if A.text(c.args[-1]) == "fss" else False, "swap_gate does not pass the flag vector to the sign computation")
+                "swap_gate: the flag vector must be all-True (one entry per symmetry component) for fermionic=True and the configured tuple otherwise")
     last = A.returns_of(sco.node)[-1]
-    chk.verdict("W2", (sco, last), last.value, True if A.text(last.value) == "swap_charges(charges_0, charges_1, operators[0].config.fermionic)" else False,
+    lv = last.value
+    ok = isinstance(lv, ast.Call) and A.call_name(lv) == "swap_charges" and len(lv.args) == 3 and A.text(lv.args[2]).endswith(".config.fermionic")
+    chk.verdict("W2", (sco, last), last.value, True if ok else False,
                 "sign_canonical_order does not evaluate the sign with the configuration's fermionic flags")
     # ---- W3
     rets = [r for r in A.returns_of(sg.node) if A.text(r.value) != "a"]
     chk.require(len(rets) == 1, "swap_gate: exactly one computing return expected")
     r = rets[0]
-    ok = isinstance(r.value, ast.Call) and A.text(r.value.func) == "a._replace" and [k.arg for k in r.value.keywords] == ["data"] and not r.value.args
+    ok = isinstance(r.value, ast.Call) and A.text(r.value.func) == f"{sg.params[0]}._replace" and [k.arg for k in r.value.keywords] == ["data"] and not r.value.args
     chk.verdict("W3", (sg, r), r.value, True if ok else False,
                 "swap_gate changes more than the data of its operand: applying it twice no longer restores the tensor")
-    nd = [n for n in ast.walk(sg.node) if isinstance(n, ast.Assign) and A.text(n.targets[0]) == "newdata"]
-    ok = nd and A.text(nd[0].value) == "a.config.backend.negate_blocks(a._data, negate_slices)"
-    chk.verdict("W3", (sg, nd[0] if nd else sg.node), nd[0] if nd else "newdata", True if ok else False,
-                "swap_gate: new data is not negate_blocks(a._data, negate_slices)")
+    me = sg.params[0]
+    data_arg = A.kwarg(r.value, "data") if isinstance(r.value, ast.Call) else None
+    nbc = [c for c in A.calls(sg.node) if A.callee_attr(c) == "negate_blocks"]
+    slice_names = {A.text(n.targets[0]) for n in ast.walk(sg.node) if isinstance(n, ast.Assign) and isinstance(n.value, ast.Call)
+                   and A.call_name(n.value) in ("_meta_swap_gate", "_meta_swap_gate_charge")}
+    ok = len(nbc) == 1 and len(nbc[0].args) == 2 and A.text(nbc[0].args[0]) in (f"{me}._data", f"{me}.data") and len(slice_names) == 1 \
+        and A.text(nbc[0].args[1]) in slice_names
+    if ok and data_arg is not None and not (data_arg is nbc[0]):
+        dn = A.text(data_arg)
+        ok = any(isinstance(n, ast.Assign) and A.text(n.targets[0]) == dn and n.value is nbc[0] for n in ast.walk(sg.node))
+    chk.verdict("W3", (sg, nbc[0] if nbc else sg.node), nbc[0] if nbc else "negate_blocks", True if ok else False,
+                "swap_gate: the data of the result is not negate_blocks(<operand data>, <slices computed by the sign functions>)")
     # negate_slices depends on structure only (never on a._data)
     for c in [c for c in A.calls(sg.node) if A.call_name(c) in ("_meta_swap_gate", "_meta_swap_gate_charge")]:
         argt = " ".join(A.text(x) for x in c.args)
         chk.verdict("W3", (sg, c), c, True if "_data" not in argt and ".data" not in argt else False,
                     "the set of negated blocks depends on the tensor's data: the second application may negate different blocks")
     nb = prog.func("yastn.backend.backend_np", "negate_blocks")
-    t = A.text(nb.node)
-    ok = "newdata = Adata.copy()" in t and "newdata[slice(*slc)] *= -1" in t and t.rstrip().endswith("return newdata")
+    ok = _negates_listed_slices_of_a_copy(nb)
     chk.verdict("W3", nb, "negate_blocks: copy, multiply listed slices by -1", True if ok else False,
                 "backend negate_blocks is no longer `x -> -x on the listed slices of a copy`")
     # _slices_to_negate selects exactly blocks with odd parity
     s2n = prog.func(CON, "_slices_to_negate")
     first = A.strip_docstring(s2n.node.body)[0]
-    ok = isinstance(first, ast.Assign) and A.text(first.value) == "tuple((slc.slcs[0] for slc, negate in zip(slices, tp) if negate))"
+    ok = _selects_odd_blocks(s2n, first)
     chk.verdict("W3", (s2n, first), first, True if ok else False, "_slices_to_negate does not select exactly the blocks whose parity is odd")
     # ---- W4
     fk = prog.func(CON, "fkron")
-    acc = [n for n in ast.walk(fk.node) if isinstance(n, ast.Assign) and A.text(n.targets[0]) == "acc_n_pattern"]
-    chk.require(acc, "fkron: acc_n_pattern not found")
+    acc = [n for n in ast.walk(fk.node) if isinstance(n, ast.Assign) and isinstance(n.value, (ast.ListComp, ast.GeneratorExp, ast.Call))
+           and any(isinstance(c, ast.Call) and A.callee_attr(c) == "add_charges" for c in ast.walk(n.value))]
+    chk.require(acc, "fkron: accumulation of string charges (add_charges over a slice of the charge pattern) not found")
     comp = acc[0].value
+    if isinstance(comp, ast.Call) and comp.args and isinstance(comp.args[0], (ast.ListComp, ast.GeneratorExp)):
+        comp = comp.args[0]
     ok = False
-    if isinstance(comp, ast.ListComp):
-        subs = [n for n in ast.walk(comp.elt) if isinstance(n, ast.Subscript) and A.text(n.value) == "n_pattern"]
+    if isinstance(comp, (ast.ListComp, ast.GeneratorExp)):
+        from ..core.poly import from_ast, Poly, Rat
         var = A.text(comp.generators[0].target)
-        ok = len(subs) == 1 and isinstance(subs[0].slice, ast.Slice) and subs[0].slice.upper is None and \
-            A.text(subs[0].slice.lower).replace(" ", "") == f"{var}+1"
+        subs = [n for n in ast.walk(comp.elt) if isinstance(n, ast.Subscript) and isinstance(n.slice, ast.Slice)]
+        if len(subs) == 1 and subs[0].slice.upper is None and subs[0].slice.lower is not None and subs[0].slice.step is None:
+            try:
+                ok = (from_ast(subs[0].slice.lower) - Rat(Poly.sym(var))).equals(Rat(Poly.const(1)))
+            except Exception:
+                ok = False
     chk.verdict("W4", (fk, acc[0]), acc[0], True if ok else False,
                 "fkron: the string attached to operator n must carry the charges of strictly later operators (n_pattern[n+1:])")
     pops = [c for c in A.calls(sco.node) if A.callee_attr(c) == "pop"]
-    ok = len(pops) == 2 and {A.text(c.func.value) for c in pops} == {"sites", "charges"} and len({A.text(c.args[0]) for c in pops}) == 1
+    ok = len(pops) == 2 and len({A.text(c.func.value) for c in pops}) == 2 and all(c.args for c in pops) and len({A.text(c.args[0]) for c in pops}) == 1
     chk.verdict("W4", sco, "sites.pop(i) and charges.pop(i) use the same index", True if ok else False,
                 "sign_canonical_order removes a site and a charge at different positions: charges get attributed to the wrong sites")
     inner = [n for n in ast.walk(sco.node) if isinstance(n, ast.If) and "f_ordered(" in A.text(n.test)]
-    ok = inner and A.text(inner[0].test) == "not f_ordered(first_site, site)"
+    ok = False
+    if inner:
+        t = inner[0].test
+        par_ = A.enclosing_map(sco.node)
+        loop = par_.get(inner[0])
+        if isinstance(t, ast.UnaryOp) and isinstance(t.op, ast.Not) and isinstance(t.operand, ast.Call) and len(t.operand.args) == 2 \
+                and isinstance(loop, ast.For):
+            cur, cand = t.operand.args
+            loopvars = A.assigned_names(loop.target)
+            rebound = {nm for b_ in inner[0].body for n in ast.walk(b_) if isinstance(n, ast.Assign) for nm in A.assigned_names(n.targets[0])}
+            ok = isinstance(cand, ast.Name) and cand.id in loopvars and isinstance(cur, ast.Name) and cur.id in rebound
     chk.verdict("W4", (sco, inner[0] if inner else sco.node), inner[0].test if inner else "f_ordered test", True if ok else False,
                 "sign_canonical_order: the selection of the next site no longer uses `not f_ordered(first_site, site)`")
 
 
 MUTANTS = [
+    ("flag vector of length 1", "yastn/tensor/_contractions.py", "    fss = (True,) * nsym if a.config.fermionic is True else a.config.fermionic", "    fss = (True,) if a.config.fermionic is True else a.config.fermionic", "W2"),
+    ("negate in place", "yastn/backend/backend_np.py", "    newdata = Adata.copy()\n    for slc in slices:\n        newdata[slice(*slc)] *= -1", "    newdata = Adata\n    for slc in slices:\n        newdata[slice(*slc)] *= -1", "W3"),
+    ("select even blocks", "yastn/tensor/_contractions.py", "for slc, negate in zip(slices, tp) if negate)", "for slc, negate in zip(slices, tp) if not negate)", "W3"),
+    ("sign 1 - parity", "yastn/tensor/_auxiliary.py", "        return 1 - 2 * (np.sum(t0 * t1, dtype=np.int64).item() % 2)", "        return 1 - (np.sum(t0 * t1, dtype=np.int64).item() % 2)", "W2"),
+    ("next site chosen with swapped arguments", "yastn/tensor/_auxiliary.py", "            if not f_ordered(first_site, site):", "            if not f_ordered(site, first_site):", "W4"),
     ("delete bosonic return", "yastn/tensor/_contractions.py", "    if not a.config.fermionic:\n        return a\n    nsym = a.config.sym.NSYM", "    nsym = a.config.sym.NSYM", "W1"),
     ("drop fss restriction", "yastn/tensor/_contractions.py", "        tp += np.sum(t1[:, fss] * t2[:, fss], axis=1, dtype=np.int64)", "        tp += np.sum(t1 * t2, axis=1, dtype=np.int64)", "W2"),
     ("drop mod 2", "yastn/tensor/_contractions.py", "    tp = np.sum(tp[:, :, fss] * charges[:, :, fss], axis=(1, 2), dtype=np.int64) % 2", "    tp = np.sum(tp[:, :, fss] * charges[:, :, fss], axis=(1, 2), dtype=np.int64)", "W2"),
@@ -338,5 +483,9 @@ MUTANTS = [
     ("string includes own charge", "yastn/tensor/_contractions.py", "sym.add_charges(*n_pattern[n+1:])", "sym.add_charges(*n_pattern[n:])", "W4"),
 ]
 BENIGN = [
+    ("rename parity accumulator", "yastn/tensor/_contractions.py", "        tp += np.sum(t1[:, fss] * t2[:, fss], axis=1, dtype=np.int64)\n    tp = tp % 2\n    return _slices_to_negate(tp, slices)", "        tp += np.sum(t1[:, fss] * t2[:, fss], axis=1, dtype=np.int64)\n    parity = tp % 2\n    return _slices_to_negate(parity, slices)"),
+    ("negate by assignment", "yastn/backend/backend_np.py", "        newdata[slice(*slc)] *= -1\n    return newdata", "        newdata[slice(*slc)] = -newdata[slice(*slc)]\n    return newdata"),
+    ("rename flag vector", "yastn/tensor/_contractions.py", "    fss = (True,) * nsym if a.config.fermionic is True else a.config.fermionic\n", "    fss = nsym * (True,) if a.config.fermionic is True else a.config.fermionic\n"),
+    ("sign with 2 on the right", "yastn/tensor/_auxiliary.py", "        return 1 - 2 * (np.sum(t0 * t1, dtype=np.int64).item() % 2)", "        return 1 - (np.sum(t0 * t1, dtype=np.int64).item() % 2) * 2"),
     ("helper for fss irrelevant rename", "yastn/tensor/_contractions.py", "    iaxes = iter(axes)\n    tp = np.zeros(lt, dtype=np.int64)", "    tp = np.zeros(lt, dtype=np.int64)\n    iaxes = iter(axes)"),
 ]
